@@ -227,6 +227,77 @@ pub fn run(rep: &mut Rep) {
             }
         }
     }
+    // rolling subscriptions: streams come and go for a long time (the client's table of registrations is appended to at
+    // the back and pruned at the front and in the middle)
+    rep.note("rolling subscriptions: K in {1,2,3,4,5,8} live streams for 40 rounds; each round the oldest (or a PRNG-chosen) stream is dropped, the broker sends a late PUBLISH for it, the application subscribes again, and one message per live stream (plus one carrying two identifiers) must reach exactly its stream");
+    for (ki, k) in [1usize, 2, 3, 4, 5, 8].iter().enumerate() {
+        for variant in 0..2u64 {
+            let id = format!("rolling:{k}:{variant}");
+            bidx += 1;
+            if !rep.take(bidx, &id) {
+                continue;
+            }
+            let mut rng = crate::sim::Rng::new(rep.seed.wrapping_mul(577).wrapping_add(ki as u64 * 2 + variant));
+            let mut w = World::boot(WorldCfg { seed: rep.seed.wrapping_add(ki as u64), ..Default::default() });
+            w.sim.log_enabled = true;
+            let mut live: Vec<usize> = Vec::new();
+            let mut qid = 1u16;
+            let subscribe = |w: &mut World, live: &mut Vec<usize>| {
+                let i = w.start(live.len() % 2, Kind::Sub);
+                w.settle_check();
+                if w.m[i].pkt_id.is_some() {
+                    w.deliver_ack(i, 1, 0, 0);
+                    w.settle_check();
+                    w.take_stream(i);
+                    live.push(i);
+                }
+            };
+            for _ in 0..*k {
+                subscribe(&mut w, &mut live);
+            }
+            for round in 0..40usize {
+                if w.blind || live.is_empty() {
+                    break;
+                }
+                let victim = if variant == 0 { 0 } else { rng.below(live.len()) };
+                let gone = live.remove(victim);
+                let gone_sid = w.m[gone].sub_id.unwrap_or(1);
+                w.drop_stream(gone);
+                w.settle_check();
+                // late message for the dropped stream: the client notices the stream is gone
+                w.in_publish((round % 3) as u8, qid, false, &[gone_sid], false);
+                if round % 3 == 2 {
+                    w.in_pubrel(qid);
+                }
+                qid = qid % 60000 + 1;
+                w.settle_check();
+                subscribe(&mut w, &mut live);
+                for (j, &i) in live.clone().iter().enumerate() {
+                    let sid = w.m[i].sub_id.unwrap_or(1);
+                    let q = ((round + j) % 3) as u8;
+                    w.in_publish(q, qid, false, &[sid], false);
+                    if q == 2 {
+                        w.in_pubrel(qid);
+                    }
+                    qid = qid % 60000 + 1;
+                    w.settle_check();
+                }
+                if live.len() >= 2 {
+                    let (a, b) = (w.m[live[0]].sub_id.unwrap_or(1), w.m[live[live.len() - 1]].sub_id.unwrap_or(2));
+                    w.in_publish(0, 0, false, &[a, b], false);
+                    w.settle_check();
+                }
+            }
+            finish(&mut w);
+            rep.add("evaluations", 1);
+            rep.add("rolling_subscription_cases", 1);
+            rep.distinct(&("rolling", k, variant));
+            if super::harvest(rep, &mut w, &id) == 0 {
+                rep.sample(|| format!("{id}: 40 rounds, {} stream items compared", w.counters.stream_items_checked));
+            }
+            super::add_counters(rep, &w);
+        }
+    }
     // many subscriptions: N streams, messages for PRNG-chosen subsets (1-3 identifiers per PUBLISH), a third of the streams dropped midway
     let counts: Vec<usize> = if rep.quick() { vec![17, 40, 130] } else { vec![15, 16, 17, 31, 33, 64, 65, 127, 129, 257, 600] };
     rep.note(&format!("many subscriptions: {:?} subscribe() calls with live streams, 300 messages each carrying 1-3 of their identifiers, a third of the streams dropped midway", counts));
